@@ -978,7 +978,7 @@ def run(ctx):
     rng = ctx.rng
     b = Batch(ctx)
     t0 = time.time()
-    budget = 36.0 if ctx.tier == 'quick' else 480.0      # the random streams stop here (counted as skipped-for-time)
+    budget = 26.0 if ctx.tier == 'quick' else 480.0      # the random streams stop here (counted as skipped-for-time)
     for case in corpus():
         check_bounds(ctx, case)
         b.add(case, 'corpus')
@@ -1011,23 +1011,23 @@ def run(ctx):
     if ctx.broken:
         n_short, n_long = n_short * 2, n_long * 2
     for i in range(n_short):
-        if time.time() - t0 > budget:
+        if i >= 300 and time.time() - t0 > budget:          # 300 short and 10 long histories run whatever the load
             ctx.count('random-short:skipped-for-time', n_short - i)
             break
         case = gen_case(rng, rng.choice([1, 2, 3, 5, 8, 12, 20]), removal=(i % 2 == 0))
         check_bounds(ctx, case)
         b.add(case, 'random-short')
-        if len(b.items) >= 300:
+        if len(b.items) >= 100:
             b.flush()
     b.flush()
     for i in range(n_long):
-        if time.time() - t0 > budget:
+        if i >= 10 and time.time() - t0 > budget + 4.0:
             ctx.count('random-long:skipped-for-time', n_long - i)
             break
         case = gen_case(rng, rng.choice([50, 100, 200]), removal=(i % 2 == 0))
         check_bounds(ctx, case)
         b.add(case, 'random-long')
-        if len(b.items) >= 50:
+        if len(b.items) >= 10:
             b.flush()
     b.flush()
     phase['random'] = round(time.time() - t0, 1)
